@@ -735,7 +735,7 @@ func TestVerifC27Regressions(t *testing.T) {
 			c.NonTrivialIf(nt)
 			c.Done()
 			if v != "" {
-				t.Fatalf("C27 violated by regression input %q (chunk %d): %s", rg.name, chunk, v)
+				t.Errorf("C27 violated by regression input %q (chunk %d): %s", rg.name, chunk, c27FirstLines(v, 12))
 			}
 		}
 	}
@@ -777,4 +777,12 @@ func TestVerifC27ReplayJournal(t *testing.T) {
 	if v != "" {
 		t.Fatalf("C27 violated: %s", v)
 	}
+}
+
+func c27FirstLines(s string, n int) string {
+	ls := strings.Split(s, "\n")
+	if len(ls) > n {
+		ls = ls[:n]
+	}
+	return strings.Join(ls, "\n")
 }
